@@ -182,6 +182,13 @@ def step (_ : Unit) (ws : List String) : Unit × String :=
       let res := match r.2 with | .ok _ => "ok" | .error e => s!"err:{e}"
       ((), s!"{res} sent={showPkts r.1.sent}")
     | _, _, _, _ => ((), "bad-op")
+  | ["uploadobj", tid, page, address, buff] =>      -- upload_buffer against a link that serialises the packet objects late
+    match tid.toInt?, page.toNat?, address.toNat?, ofHex? buff with
+    | some tid, some page, some address, some buff =>
+      let r := uploadBufferObj ⟨[], none, []⟩ tid page address buff
+      let res := match r.2 with | .ok _ => "ok" | .error e => s!"err:{e}"
+      ((), s!"{res} sent={showPkts (r.1.flush.air.map fun d => ⟨bootHdr, d⟩)}")
+    | _, _, _, _ => ((), "bad-op")
   | ["wflash", addr, pb, tp, pc, script, inbox] =>
     match addr.toInt?, pb.toInt?, tp.toInt?, pc.toInt?, parseScript? script, parsePkts? inbox with
     | some addr, some pb, some tp, some pc, some script, some inbox =>
